@@ -4,6 +4,7 @@ package main
 
 import (
 	"fmt"
+	"image"
 	"strconv"
 
 	"github.com/shogo82148/qrcode/internal/bitmap"
@@ -27,6 +28,27 @@ func init() {
 	ops["bmp.xor"] = func(a []string) string {
 		img := parseImage(a[0])
 		img.XorBinary(atoi(a[1]), atoi(a[2]), a[3] == "1")
+		return "ok " + showImage(img)
+	}
+	ops["bmp.clone"] = func(a []string) string {
+		img := parseImage(a[0])
+		before := showImage(img)
+		c := img.Clone()
+		out := showImage(c)
+		// the clone is independent: writing to it leaves the source alone
+		c.XorBinary(c.Rect.Min.X, c.Rect.Min.Y, true)
+		if showImage(img) != before {
+			return "ok clone-aliases-source"
+		}
+		var d bitmap.Image
+		d.Copy(img)
+		if showImage(&d) != before {
+			return "ok copy-differs " + showImage(&d)
+		}
+		return "ok " + out
+	}
+	ops["bmp.new"] = func(a []string) string {
+		img := bitmap.New(image.Rect(atoi(a[0]), atoi(a[1]), atoi(a[2]), atoi(a[3])))
 		return "ok " + showImage(img)
 	}
 	ops["bmp.ones"] = func(a []string) string {
